@@ -91,6 +91,9 @@ var selfMutants = []selfMutant{
 	{Rule: "R-BOUNDS", File: "strconv/float.go", Old: "	} else if -22 <= exp && exp < 0 { // int / 10^k\n		return f / float64pow10[-exp], i\n	}\n	if f == 0.0 {", New: "	} else if -23 <= exp && exp < 0 { // int / 10^k\n		return f / float64pow10[-exp], i\n	}\n	if f == 0.0 {", Props: []string{"C14"}, Why: "power-of-ten table indexed at 23"},
 	{Rule: "R-EOFKIND", File: "binary.go", Old: "\tfor i := 0; i < int(n); {\n\t\tm, err := r.r.Read(b[i:])\n\t\tr.pos += int64(m)\n\t\ti += m\n\t\tif err != nil {\n\t\t\treturn b[:i], err\n\t\t} else if m == 0 {\n\t\t\treturn b[:i], errors.New(\"reader: could not read all bytes\")\n\t\t}\n\t}\n\treturn b, nil\n}", New: "\tm, err := io.ReadFull(r.r, b[:n])\n\tr.pos += int64(m)\n\treturn b[:m], err\n}", Props: []string{"C19"}, Why: "io.Reader back end filled with io.ReadFull: truncation inside a value reports io.ErrUnexpectedEOF instead of io.EOF"},
 	{Rule: "R-EOFKIND", File: "binary.go", Old: "\tfor i := 0; i < int(n); {\n\t\tm, err := r.r.Read(b[i:])\n\t\tr.pos += int64(m)\n\t\ti += m\n\t\tif err != nil {\n\t\t\treturn b[:i], err\n\t\t} else if m == 0 {\n\t\t\treturn b[:i], errors.New(\"reader: could not read all bytes\")\n\t\t}\n\t}\n\treturn b, nil\n}", New: "\tm, err := io.ReadFull(r.r, b[:n])\n\tr.pos += int64(m)\n\tif err == io.ErrUnexpectedEOF {\n\t\terr = io.EOF\n\t}\n\treturn b[:m], err\n}", Props: []string{"C19"}, Silent: true, Why: "io.ReadFull with io.ErrUnexpectedEOF translated to io.EOF"},
+	{Rule: "R-OVF", File: "strconv/int.go", Old: "\t\t\tif math.MaxUint64/10 < n || math.MaxUint64-uint64(c-'0') < n*10 {\n\t\t\t\treturn 0, 0\n\t\t\t}\n\t\t\tn *= 10\n\t\t\tn += uint64(c - '0')", New: "\t\t\tif n > math.MaxUint64/10 {\n\t\t\t\treturn 0, 0\n\t\t\t}\n\t\t\tn10 := n * 10\n\t\t\tn1 := n10 + uint64(c-'0')\n\t\t\tif n1 < n10 {\n\t\t\t\treturn 0, 0\n\t\t\t}\n\t\t\tn = n1", Props: []string{"C14"}, Silent: true, Why: "ParseUint: the sum is computed first and discarded when it wrapped (n1 < n10)"},
+	{Rule: "R-OVF", File: "strconv/int.go", Old: "\t\t\tif math.MaxUint64/10 < n || math.MaxUint64-uint64(c-'0') < n*10 {\n\t\t\t\treturn 0, 0\n\t\t\t}\n\t\t\tn *= 10\n\t\t\tn += uint64(c - '0')", New: "\t\t\td := uint64(c - '0')\n\t\t\tif (math.MaxUint64-d)/10 < n {\n\t\t\t\treturn 0, 0\n\t\t\t}\n\t\t\tn = n*10 + d", Props: []string{"C14"}, Silent: true, Why: "ParseUint: single-division guard (max-d)/10 < n"},
+	{Rule: "R-OVF", File: "strconv/int.go", Old: "\t\t\tif math.MaxUint64/10 < n || math.MaxUint64-uint64(c-'0') < n*10 {\n\t\t\t\treturn 0, 0\n\t\t\t}\n\t\t\tn *= 10\n\t\t\tn += uint64(c - '0')", New: "\t\t\td := uint64(c - '0')\n\t\t\tif (math.MaxUint64-d)/10+1 < n {\n\t\t\t\treturn 0, 0\n\t\t\t}\n\t\t\tn = n*10 + d", Props: []string{"C14"}, Why: "ParseUint: single-division guard off by one, the sum wraps"},
 	{Rule: "R-OVF", File: "strconv/int.go", Old: "\tif !neg && uint64(math.MaxInt64) < n {\n\t\treturn 0, 0\n\t} else if neg {\n\t\treturn -int64(n), i\n\t}\n\treturn int64(n), i", New: "\tif neg {\n\t\treturn -int64(n), i\n\t}\n\treturn int64(n), i", Props: []string{"C14"}, Why: "ParseInt: positive range check dropped, 9223372036854775808 comes back as MinInt64"},
 	{Rule: "R-OVF", File: "strconv/int.go", Old: "\tif !neg && uint64(math.MaxInt64) < n {\n\t\treturn 0, 0\n\t} else if neg {\n\t\treturn -int64(n), i\n\t}\n\treturn int64(n), i", New: "\tif neg && uint64(math.MaxInt64) < n {\n\t\treturn 0, 0\n\t} else if neg {\n\t\treturn -int64(n), i\n\t}\n\treturn int64(n), i", Props: []string{"C14"}, Why: "ParseInt: MaxInt64 limit attached to the negative sign"},
 	{Rule: "R-OVF", File: "strconv/int.go", Old: "\tif !neg && uint64(math.MaxInt64) < n {\n\t\treturn 0, 0\n\t} else if neg {\n\t\treturn -int64(n), i\n\t}\n\treturn int64(n), i", New: "\tif neg {\n\t\tif uint64(-math.MinInt64) < n {\n\t\t\treturn 0, 0\n\t\t}\n\t\treturn -int64(n), i\n\t} else if uint64(math.MaxInt64) < n {\n\t\treturn 0, 0\n\t}\n\treturn int64(n), i", Props: []string{"C14"}, Silent: true, Why: "ParseInt: sign handling after the loop restructured per sign"},
